@@ -6,7 +6,14 @@ discs incl. Opus volume letters); TraceAfsp.tla judges the selected sets."""
 import os, json, random, subprocess, itertools, re
 import common, mkdisc, discs
 
-CFG_CONST = dict(NameChars=[65, 97, 49, 94, 91, 92, 45, 36, 98], MaxName=2, FileDirs=[36, 65, 94], FileDrives=[0, 1], CtxDrive=0)
+def cfg_consts(cfg):
+    """the file-set constants of a .cfg (kept in one place: the TLC config)"""
+    import re
+    txt = open(os.path.join(common.SPEC, cfg)).read()
+    def setof(name):
+        return sorted(int(x) for x in re.search(name + r" = \{([^}]*)\}", txt).group(1).split(","))
+    return dict(NameChars=setof("NameChars"), MaxName=int(re.search(r"MaxName = (\d+)", txt).group(1)), FileDirs=setof("FileDirs"),
+                FileDrives=setof("FileDrives"), CtxDrive=0)
 
 
 def files_of(c):
@@ -42,7 +49,7 @@ def run(chk, tier, seed):
     cases = sorted({json.dumps(c, sort_keys=True): c for c in r.cases}.values(), key=lambda c: (c["cdir"], c["pat"]))
     if len(cases) != r.distinct:
         raise common.MachineryError("Afsp: %d cases for %d states" % (len(cases), r.distinct))
-    files = files_of(CFG_CONST)
+    files = files_of(cfg_consts(cfg))
     chk.exhaustive = True
     # ---- in-process replay
     lines = []
@@ -137,7 +144,7 @@ def run(chk, tier, seed):
             for e in events:
                 f.write(json.dumps(e) + "\n")
         if events:
-            ok, tr = common.validate_trace("TraceAfsp", "TraceAfsp.cfg", trace, timeout=3000)
+            ok, tr = common.validate_trace("TraceAfsp", "TraceAfsp.cfg" if quick else "TraceAfsp_thorough.cfg", trace, timeout=3000)
             chk.add_tlc("TraceAfsp", tr)
             chk.traces += len(events)
             if not ok or not tr.verdicts:
